@@ -136,6 +136,10 @@ class Spec:
             op = "childLocal"
         if op == "decodeTp":
             return
+        if op == "dropLocalSpans":
+            self.lspans.pop(a[0], None)
+            self.lorphans.pop(a[0], None)
+            return
         if op == "pushChildLast":
             # the caller's last handle of the set is moved into the call: pushed as by `pushChild`, the variable is gone
             self.apply("%d pushChild %s %s" % (t, a[0], a[1]), pos)
@@ -773,6 +777,9 @@ class Gen:
             text = "".join(r.pick(list("0123456789abcdefABCDEF-+ x€é")) for _ in range(r.below(70)))
         self.emit(t, "decodeTp %s" % hx(text))
 
+    def op_drop_local_spans(self, t, x):
+        self.emit(t, "dropLocalSpans %s" % x)
+
     def op_push_child(self, t, v, x):
         last = self.k.get("move_sets") and self.r.chance(1, 3)
         self.emit(t, "pushChild%s %s %s" % ("Last" if last else "", v, x))
@@ -1018,6 +1025,8 @@ class Gen:
                     choices.append(("cancel", 5 if self.k.get("overload") else 1))
                 if s.lspans:
                     choices.append(("pushChild", 3))
+                    if self.k.get("move_sets") and self.r.chance(1, 4):
+                        choices.append(("dropLocalSpans", 1))
             choices += [("localEnter", 6), ("lAddEvent", 2), ("lAddProps", 2), ("ctxLocal", 3), ("childLocal", 3), ("collector", 1)]
             if top is not None:
                 choices.append(("close", 9))
@@ -1148,6 +1157,8 @@ class Gen:
                 if self.k["same_trace_multi"] or not (keys & done):
                     done |= keys
                     self.op_push_child(t, v, x)
+            elif c == "dropLocalSpans":
+                self.op_drop_local_spans(t, r.pick(list(s.lspans)))
             elif c == "toRecords":
                 self.op_to_records(t, r.pick(list(s.lspans)))
             elif c == "exit":
@@ -1240,6 +1251,8 @@ class Gen:
                             ("addProps", 3), ("addEvent", 2), ("cancel", 2)]
                 if s.lspans:
                     choices.append(("pushChild", 3))
+                    if self.k.get("move_sets") and self.r.chance(1, 4):
+                        choices.append(("dropLocalSpans", 1))
             if top is not None:
                 choices.append(("close", 9))
                 if top[0] == "local" and top[2] != "stale":
@@ -1314,6 +1327,8 @@ class Gen:
                 self.op_ctx_local(t)
             elif c == "pushChild":
                 self.op_push_child(t, r.pick(spans), r.pick(list(s.lspans)))
+            elif c == "dropLocalSpans":
+                self.op_drop_local_spans(t, r.pick(list(s.lspans)))
             elif c == "toRecords":
                 self.op_to_records(t, r.pick(list(s.lspans)))
             elif c == "exit":
